@@ -24,6 +24,7 @@ type persistSpec struct {
 	txFuncs  []string          // callees whose func-literal argument is one transaction: calls inside get "tx:"
 	args     map[string][]int  // callee text -> indices of arguments appended to the emitted name
 	required []string          // emitted names that must occur
+	returns  bool              // also record every return statement (tagged with its branch) as "return"
 }
 
 func persistSeq(sp persistSpec) []string {
@@ -131,6 +132,16 @@ func persistSeq(sp persistSpec) []string {
 				// a deferred call runs when the function returns, not where it is written
 				visit(t.Call, tag+"defer:")
 				return false
+			case *ast.ReturnStmt:
+				if !sp.returns {
+					return true
+				}
+				// the results are evaluated first, then the function returns
+				for _, r := range t.Results {
+					visit(r, tag)
+				}
+				out = append(out, tag+"return")
+				return false
 			case *ast.GoStmt:
 				die("%s: goroutine started inside a persistence sequence", where)
 			}
@@ -150,6 +161,29 @@ func persistSeq(sp persistSpec) []string {
 		}
 	}
 	return out
+}
+
+// singleDefinition returns the text of the right-hand side of the one `name := …` in fd (fatal if there is none, or if the
+// name is assigned anywhere else).
+func singleDefinition(fd *ast.FuncDecl, name string) string {
+	def, n := "", 0
+	ast.Inspect(fd.Body, func(x ast.Node) bool {
+		if as, ok := x.(*ast.AssignStmt); ok && len(as.Lhs) == len(as.Rhs) {
+			for i, lh := range as.Lhs {
+				if id, ok := lh.(*ast.Ident); ok && id.Name == name {
+					n++
+					if as.Tok == token.DEFINE {
+						def = exprString(as.Rhs[i])
+					}
+				}
+			}
+		}
+		return true
+	})
+	if n != 1 || def == "" {
+		die("%s: local %s is not defined exactly once", fd.Name.Name, name)
+	}
+	return def
 }
 
 // boltOpenOptions returns the text of the third argument of every bolt.Open call in fn.
@@ -315,12 +349,70 @@ func genPersist() {
 		vocab: map[string]string{"bp.store.LoadGroup": "store.LoadGroup", "public.NewChainInfo": "NewChainInfo",
 			"bp.store.LoadShare": "store.LoadShare", "bp.group.Find": "group.Find"},
 		strict: []string{"bp.store."}, required: []string{"store.LoadGroup", "store.LoadShare", "group.Find"}})
-	emit(persistSpec{lean: "loadBeaconFromStorePersist", dir: "internal/core", recv: "DrandDaemon", fn: "LoadBeaconFromStore",
+	// DrandDaemon.LoadBeaconFromStore: the start-up path. Two shapes are recognised, anything else is fatal:
+	//   asIs       DKGStatus; no completed record: v1 migration branch; bp.Load; StartBeacon
+	//   reconcile  the same, and WITH a completed record dd.reconcileKeyFiles runs before bp.Load
+	lbfs := persistSeq(persistSpec{lean: "loadBeaconFromStorePersist", dir: "internal/core", recv: "DrandDaemon", fn: "LoadBeaconFromStore",
 		vocab: map[string]string{"dd.InstantiateBeaconProcess": "InstantiateBeaconProcess", "dd.dkg.DKGStatus": "dkg.DKGStatus",
 			"store.LoadGroup": "store.LoadGroup", "store.LoadShare": "store.LoadShare", "dd.dkg.Migrate": "dkg.Migrate",
+			"dd.reconcileKeyFiles": "reconcileKeyFiles",
 			"bp.Load": "bp.Load", "dd.AddBeaconHandler": "AddBeaconHandler", "bp.StartBeacon": "bp.StartBeacon"},
-		strict: []string{"store.", "dd.dkg."}, ifTags: map[string]string{"freshRun": "fresh:"},
+		strict: []string{"store.", "dd.dkg.", "dd.reconcile", "bp.store."}, ifTags: map[string]string{"freshRun": "fresh:"},
+		elseTags: map[string]string{"freshRun": "completed:"},
 		required: []string{"dkg.DKGStatus", "fresh:store.LoadGroup", "fresh:store.LoadShare", "fresh:dkg.Migrate", "bp.Load", "bp.StartBeacon"}})
+	startAsIs := []string{"InstantiateBeaconProcess", "dkg.DKGStatus", "fresh:store.LoadGroup", "fresh:store.LoadShare", "fresh:dkg.Migrate",
+		"bp.Load", "AddBeaconHandler", "bp.StartBeacon"}
+	startReconcile := []string{"InstantiateBeaconProcess", "dkg.DKGStatus", "fresh:store.LoadGroup", "fresh:store.LoadShare", "fresh:dkg.Migrate",
+		"completed:reconcileKeyFiles", "bp.Load", "AddBeaconHandler", "bp.StartBeacon"}
+	startVariant := ""
+	var recSeq, recDefs, lastCompleted []string
+	switch strings.Join(lbfs, " ; ") {
+	case strings.Join(startAsIs, " ; "):
+		startVariant = "asIs"
+	case strings.Join(startReconcile, " ; "):
+		startVariant = "reconcile"
+		// reconcileKeyFiles: reads first; returns without a write when there is no record, when both files are the
+		// record's, when the group file is newer than the record; Reset for a node outside the recorded group that
+		// still holds a file; otherwise SaveGroup then SaveShare from the record. Exactly this shape, or fatal.
+		recSeq = persistSeq(persistSpec{lean: "reconcileKeyFilesPersist", dir: "internal/core", recv: "DrandDaemon", fn: "reconcileKeyFiles",
+			vocab: map[string]string{"dd.dkg.LastCompleted": "dkg.LastCompleted", "store.LoadGroup": "store.LoadGroup",
+				"store.LoadShare": "store.LoadShare", "store.Reset": "store.Reset", "store.SaveGroup": "store.SaveGroup",
+				"store.SaveShare": "store.SaveShare", "done.FinalGroup.Find": "FinalGroup.Find",
+				"group.PublicKey.Equal": "group.PublicKey.Equal", "share.Public().Equal": "share.Public.Equal", "share.Public": ""},
+			strict: []string{"store.", "dd.dkg.", "bp.store.", "os.", "fs.", "key."}, returns: true,
+			ifTags: map[string]string{"err!=nil||done==nil": "norecord:", "groupInSync&&shareInSync": "insync:",
+				"group!=nil&&group.TransitionTime>done.FinalGroup.TransitionTime": "newer:",
+				"done.FinalGroup.Find(bp.priv.Public)==nil": "out:", "group==nil&&shareErr!=nil": "nofiles:", "err!=nil": "err:"},
+			required: []string{"dkg.LastCompleted", "store.LoadGroup", "store.LoadShare", "out:store.Reset", "store.SaveGroup", "store.SaveShare"}})
+		want := []string{"dkg.LastCompleted", "norecord:return", "store.LoadGroup", "store.LoadShare", "group.PublicKey.Equal",
+			"share.Public.Equal", "insync:return", "newer:return", "FinalGroup.Find", "out:nofiles:return", "out:store.Reset", "out:return",
+			"store.SaveGroup", "err:return", "store.SaveShare", "return"}
+		if strings.Join(recSeq, " ; ") != strings.Join(want, " ; ") {
+			die("internal/core:DrandDaemon.reconcileKeyFiles: shape not recognised: %v", recSeq)
+		}
+		rfd := findFunc("internal/core", "DrandDaemon", "reconcileKeyFiles")
+		for _, nm := range []string{"distKey", "groupInSync", "shareInSync"} {
+			recDefs = append(recDefs, nm+":="+singleDefinition(rfd, nm))
+		}
+		wantDefs := []string{"distKey:=done.FinalGroup.PublicKey",
+			"groupInSync:=group!=nil&&group.PublicKey!=nil&&group.PublicKey.Equal(distKey)",
+			"shareInSync:=shareErr==nil&&share.Public().Equal(distKey)"}
+		if strings.Join(recDefs, " ; ") != strings.Join(wantDefs, " ; ") {
+			die("internal/core:DrandDaemon.reconcileKeyFiles: in-sync tests not recognised: %v", recDefs)
+		}
+		// dkg.Process.LastCompleted only reads the finished record
+		lastCompleted = persistSeq(persistSpec{lean: "dkgLastCompletedPersist", dir: "internal/dkg", recv: "Process", fn: "LastCompleted",
+			vocab: map[string]string{"d.store.GetFinished": "store.GetFinished"}, strict: []string{"d.store.", "d.completedDKGs."},
+			required: []string{"store.GetFinished"}})
+	default:
+		die("internal/core:DrandDaemon.LoadBeaconFromStore: start-up path not recognised (neither the as-is nor the reconciling shape): %v", lbfs)
+	}
+	l.pf("/-- internal/core: `DrandDaemon.LoadBeaconFromStore` — persistence-relevant calls in evaluation order -/\ndef loadBeaconFromStorePersist : List String := %s\n", leanStrList(lbfs))
+	l.pf("/-- which of the two recognised start-up paths the tree has: \"asIs\" (straight to `bp.Load`) or \"reconcile\" (with a completed DKG\nrecord `reconcileKeyFiles` makes the key folder agree with it before `bp.Load`) -/\n")
+	l.pf("def startupVariant : String := %s\n", leanStr(startVariant))
+	l.pf("/-- internal/core: `DrandDaemon.reconcileKeyFiles` — calls and returns in evaluation order, tagged with their branch (empty: the tree has no such function) -/\ndef reconcileKeyFilesPersist : List String := %s\n", leanStrList(recSeq))
+	l.pf("/-- the defining expressions of its in-sync tests -/\ndef reconcileInSync : List String := %s\n", leanStrList(recDefs))
+	l.pf("/-- internal/dkg: `Process.LastCompleted` — store calls -/\ndef dkgLastCompletedPersist : List String := %s\n", leanStrList(lastCompleted))
 	emit(persistSpec{lean: "callbackStorePutPersist", dir: "internal/chain/beacon", recv: "callbackStore", fn: "Put",
 		vocab: map[string]string{"c.Store.Put": "Store.Put"}, sends: map[string]string{"j": "dispatch"},
 		strict: []string{"c.Store."}, ifTags: map[string]string{"err!=nil": "err:", "b.Round!=0": ""}, required: []string{"Store.Put", "dispatch"}})
